@@ -128,6 +128,7 @@ def check(repo: Repo, rep, tier):
     inactive(repo, rep)
     driver_filter(repo, rep)
     flags_not_approval(repo, rep)
+    ci_detect(repo, rep)
     stale_bindings(repo, rep, {"config", "_current"}, "e.g. a copied state/config object keeps the flags of import time, so approval decisions are taken on stale data")
 
 
@@ -891,3 +892,36 @@ def flags_not_approval(repo: Repo, rep):
         if not bad:
             rep.ok("R-FLAGS-NOT-APPROVAL", f, f.node, f"{len(wcalls) + len(prim)} write(s), none decided by update_flags")
     rep.floor("R-FLAGS-NOT-APPROVAL", "functions that write", n, 5)
+
+
+def ci_detect(repo: Repo, rep):
+    rep.rule(
+        "R-CI-DETECT",
+        "is_ci_run() tests the *value* of every variable of its table on its own (a loop / any() over the table whose per-variable condition reads "
+        "os.environ.get(var) / os.environ[var] / os.getenv(var)) and answers truthy as soon as one is set to a non-empty value: selecting one variable by "
+        "mere presence and testing only that one lets a defined-but-empty variable hide the others",
+    )
+    f = repo.func("pytest_plugin.py::is_ci_run")
+    tables = [x for x in body_nodes(f.node) if isinstance(x, ast.Assign) and isinstance(x.value, (ast.Tuple, ast.List)) and len(x.value.elts) >= 3]
+    if not tables:
+        rep.undecided("R-CI-DETECT", "table of CI variables not found")
+        return
+    tname = tables[0].targets[0].id
+    its = []
+    for x in body_nodes(f.node):
+        if isinstance(x, ast.For) and norm(x.iter) == tname:
+            its.append((x, x.target, [s for s in x.body]))
+        if isinstance(x, ast.comprehension) and norm(x.iter) == tname:
+            its.append((x, x.target, list(x.ifs)))
+    if not its:
+        rep.violation("R-CI-DETECT", f, f.node, "is_ci_run() does not iterate its table of CI variables", construct="no-iteration")
+        return
+    for it, tgt, body in its:
+        v = norm(tgt)
+        txt = " ".join(norm(b) for b in body)
+        value_test = any(p in txt for p in (f"os.environ.get({v}", f"os.environ[{v}]", f"os.getenv({v}", f"environ.get({v}"))
+        presence_only = f"{v} in os.environ" in txt and not value_test
+        if value_test:
+            rep.ok("R-CI-DETECT", f, it, "each variable's value is tested")
+        else:
+            rep.violation("R-CI-DETECT", f, it, "is_ci_run() picks a variable by presence (`var in os.environ`) instead of testing every variable's value: with e.g. CI='' and BUILD_NUMBER=17 the CI run is not detected and files are rewritten" if presence_only else "is_ci_run() iterates its table without testing the variables' values", construct="presence-only")
